@@ -72,6 +72,33 @@ func (x *Exec) vector(m Model) []string {
 	return out
 }
 
+func (x *Exec) namedVector(m Model) []string {
+	v := x.vector(m)
+	out := make([]string, len(v))
+	memo := map[*Term]uint64{}
+	for i, in := range x.inputs {
+		val := v[i]
+		switch in.Kind {
+		case "f64":
+			val = fmt.Sprint(math.Float64frombits(evalTerm(in.Term, m, memo)))
+		case "bytes", "oneof":
+			val = fmt.Sprintf("%q", x.strUnder(in.Str, m, memo))
+		}
+		out[i] = in.Name + "=" + val
+	}
+	return out
+}
+
+func (x *Exec) renderObsList(obs []Observation, m Model) []string {
+	var out []string
+	for _, o := range obs {
+		out = append(out, o.Label+"="+x.renderObs(o.V, m))
+	}
+	return out
+}
+
+func (x *Exec) renderAllObs(m Model) []string { return x.renderObsList(x.observes, m) }
+
 func hexOf(s string) string {
 	const hx = "0123456789abcdef"
 	var sb strings.Builder
@@ -145,6 +172,13 @@ func (x *Exec) vAssert(c *Term, msg string) {
 	} else {
 		x.queries++
 		res, m = x.solver.Check(x.pc, neg, true)
+		if res == Unknown {
+			res = fallbackCheck(x.pc, neg, x.eng.timeout, x.eng.solverKind)
+			if res == Sat {
+				// need a model: ask the primary again is pointless; treat as inconclusive unless unsat
+				res = Unknown
+			}
+		}
 	}
 	switch res {
 	case Unsat:
@@ -154,7 +188,7 @@ func (x *Exec) vAssert(c *Term, msg string) {
 		x.inconclusive++
 		return
 	}
-	x.fails = append(x.fails, AssertFail{Msg: msg, Cond: c, Model: m})
+	x.fails = append(x.fails, AssertFail{Msg: msg, Cond: c, Model: m, Obs: append([]Observation{}, x.observes...)})
 	// continue on the side where the assertion holds (if any)
 	x.vAssume(c)
 }
@@ -334,6 +368,10 @@ func registerIntrinsics(e *Engine) {
 		t := a[0].(*Term)
 		return tAnd(tNot(tFIsNaN(t)), tNot(tFIsInf(t)))
 	})
+	reg("vIsIntegral", func(x *Exec, a []Value) Value {
+		t := a[0].(*Term)
+		return tFCmp(OpFEq, t, tFTrunc(t))
+	})
 	reg("vCallLog", func(x *Exec, a []Value) Value { return mkStrSlice(x.calllog) })
 
 	registerLibModels(e)
@@ -434,6 +472,23 @@ func (x *Exec) sprintTyped(v Value, t types.Type, verb byte) (*StrVal, bool) {
 }
 
 func (x *Exec) sprintf(format string, args []Value) *StrVal {
+	r := x.sprintf0(format, args)
+	if r.Opaque {
+		// literal characters of the format always appear in the output
+		n := 0
+		for i := 0; i < len(format); i++ {
+			if format[i] == '%' {
+				i++
+				continue
+			}
+			n++
+		}
+		r.MinLen = n
+	}
+	return r
+}
+
+func (x *Exec) sprintf0(format string, args []Value) *StrVal {
 	out := mkStr("")
 	argi := 0
 	i := 0
